@@ -163,6 +163,10 @@ def build_sources(binary, base, rng, tier):
     scns = []
     for comp, hint in [("none", "no"), ("zstd", "yes"), ("lz4", "yes"), ("lzma", "yes")]:
         o2 = [dict(o, hint=hint) for o in ops]
+        if comp != "none":
+            # the targets sit far inside a compressed cluster of many 4 KiB chunks: the first view taken on
+            # the freshly opened pack has to wait for the background decoder to reach them
+            o2 = [{"cid": 800, "size": 700000, "cls": "low", "hint": hint}] + o2
         scns.append({"kind": "content", "id": "src_" + comp, "dir": os.path.join(base, "src_" + comp), "comp": comp,
                      "level": {"none": 0, "zstd": 3, "lz4": 1, "lzma": 1}[comp], "ops": o2, "read": False})
     scns.append({"kind": "content", "id": "src_basic", "dir": os.path.join(base, "src_basic"), "comp": "zstd", "level": 3, "creator": "basic",
